@@ -368,6 +368,61 @@ def _r24d(chk, repo, mod) -> None:
     chk.require(ok, "R24d", rr, "DelayedException.reraise does not raise the carried exception", detail="carrier raises carried exception")
 
 
+def _self_attr(t):
+    return t.attr if isinstance(t, ast.Attribute) and isinstance(t.value, ast.Name) and t.value.id == "self" else None
+
+
+def _derived_only_param(init, p, const, args, params) -> bool:
+    """May __reduce__ pass the literal `const` for constructor parameter `p`?
+
+    Yes exactly when doing so rebuilds the same object state: `const` is p's
+    (falsy) default, p is consumed only by `if p: <derive attrs from p> else:
+    <attrs from other parameters>` statements of __init__, and every attribute
+    the true-branch derives from p is assigned in the else-branch directly from
+    a parameter q whose position in the __reduce__ tuple carries that very
+    attribute.  (SQLBaseError: pos -> line_no/line_pos, which are pickled.)"""
+    pos = init.args.args[1:]
+    defaults = dict(zip([a.arg for a in pos[len(pos) - len(init.args.defaults):]], init.args.defaults))
+    defaults.update({a.arg: d for a, d in zip(init.args.kwonlyargs, init.args.kw_defaults) if d is not None})
+    d = defaults.get(p)
+    if not (isinstance(d, ast.Constant) and d.value == const.value and type(d.value) is type(const.value) and not const.value):
+        return False
+    guards = [s for s in ast.walk(init) if isinstance(s, ast.If) and isinstance(s.test, ast.Name) and s.test.id == p]
+    covered = {id(s.test) for s in guards}
+    for g in guards:
+        for st in g.body:
+            covered.update(id(x) for x in ast.walk(st))
+    uses = [x for x in ast.walk(init) if isinstance(x, ast.Name) and x.id == p]
+    if not guards or any(id(x) not in covered for x in uses):
+        return False
+    carried = {q: _self_attr(a) for a, q in zip(args, params)}
+    for g in guards:
+        derived = set()
+        for st in g.body:
+            for x in ast.walk(st):
+                if isinstance(x, (ast.Assign, ast.AugAssign, ast.AnnAssign)):
+                    tgts = x.targets if isinstance(x, ast.Assign) else [x.target]
+                    for t in tgts:
+                        for e in (t.elts if isinstance(t, (ast.Tuple, ast.List)) else [t]):
+                            if _self_attr(e):
+                                derived.add(_self_attr(e))
+                elif isinstance(x, ast.Call):
+                    r = x.func
+                    while isinstance(r, ast.Attribute):
+                        r = r.value
+                    if not (isinstance(x.func, ast.Attribute) and isinstance(r, ast.Name) and r.id == p):
+                        return False  # only methods of p itself: any other call may set state the else-branch does not replay
+        restored = {}
+        for st in g.orelse:
+            if isinstance(st, ast.Assign) and len(st.targets) == 1 and _self_attr(st.targets[0]) and isinstance(st.value, ast.Name):
+                restored[_self_attr(st.targets[0])] = st.value.id
+        for attr in derived:
+            q = restored.get(attr)
+            if q is None or carried.get(q) != attr:
+                return False
+    return True
+
+
 def _r24f(chk, repo) -> None:
     """Results travel back from workers by pickling: every error class with a
     custom __reduce__ must hand *all* constructor inputs back to its constructor,
@@ -407,6 +462,8 @@ def _r24f(chk, repo) -> None:
                 break
             for a, p in zip(args, params):
                 good = isinstance(a, ast.Attribute) and isinstance(a.value, ast.Name) and a.value.id == "self" and (a.attr == p or p in attr_of.get(a.attr, ()))
+                if not good and isinstance(a, ast.Constant):
+                    good = _derived_only_param(init[1], p, a, args, params)
                 if not good:
                     ok, why = False, f"__reduce__ passes {norm(a)} in the position of constructor parameter '{p}'"
                     break
@@ -419,6 +476,21 @@ def _r24f(chk, repo) -> None:
 from ..selftest import Variant  # noqa: E402
 
 VARIANTS = [
+    Variant("base-error-pickle-loses-stored-pos", "src/sqlfluff/core/errors.py",
+            "        self.description = description\n        if pos:",
+            "        self.description = description\n        self.pos = pos\n        if pos:", "R24f", "SQLBaseError",
+            "None for pos is only a round trip while pos is consumed by the guarded derivation alone"),
+    Variant("base-error-pickle-else-drops-line-pos", "src/sqlfluff/core/errors.py",
+            "            self.line_no = line_no\n            self.line_pos = line_pos\n",
+            "            self.line_no = line_no\n            self.line_pos = 0\n", "R24f", "SQLBaseError",
+            "line_pos derived from pos in the worker is reset when the pickled error is rebuilt with pos=None"),
+    Variant("base-error-pickle-swaps-line-fields", "src/sqlfluff/core/errors.py",
+            "            None,\n            self.line_no,\n            self.line_pos,",
+            "            None,\n            self.line_pos,\n            self.line_no,", "R24f", "SQLBaseError"),
+    Variant("base-error-pickle-nondefault-pos", "src/sqlfluff/core/errors.py",
+            "            self.description,\n            None,\n            self.line_no,",
+            "            self.description,\n            0,\n            self.line_no,", "R24f", "SQLBaseError",
+            "only the parameter's own default selects the replaying branch by construction"),
     Variant("lint-error-pickle-drops-warning", "src/sqlfluff/core/errors.py",
             "            self.fixes,\n            self.ignore,\n            self.fatal,\n            self.warning,\n        )",
             "            self.fixes,\n            self.ignore,\n            self.fatal,\n        )", "R24f", "SQLLintError", "seeded C22-1"),
